@@ -423,6 +423,10 @@ class VBSClusteringManager:
         with self._lock:
             if self._state is not VBSState.VRU_ACTIVE_STANDALONE:
                 return False
+            if self._join_substate is not _JoinSubstate.NONE:
+                # A join (or its leave notification) towards another cluster is in progress:
+                # its bookkeeping would otherwise linger while this station leads a cluster
+                return False
 
             # Count nearby VRUs within MAX_CLUSTER_DISTANCE
             now = self._time_fn()
